@@ -47,12 +47,16 @@ type opSpec struct {
 	id    int
 	after []int // indices of threads that must have returned before this one is started
 	auto  bool  // setup op: environment verdicts are fixed (load ok, close returns, TryClose true)
+	ctx   bool  // Get/Remove/RemoveSame called with a context the scheduler may cancel while the op waits
 }
 
 func (o opSpec) String() string {
 	s := o.kind.String()
 	if o.kind.hasId() {
 		s += fmt.Sprint(o.id)
+	}
+	if o.ctx {
+		s += "~"
 	}
 	if o.auto {
 		s += "!"
@@ -155,6 +159,8 @@ type thread struct {
 	op         opSpec
 	addInst    *instance // opAdd: the object to add
 	same       *instance // opRemoveSame: the target
+	cancel     func()    // cancels the op's context (ops with ctx)
+	cancelled  bool
 	spawned    bool
 	resume     chan string
 	park       park
@@ -296,6 +302,8 @@ func errName(err error) string {
 		return "load"
 	case errors.Is(err, errTry):
 		return "tryerr"
+	case errors.Is(err, context.Canceled):
+		return "ctxcanceled"
 	}
 	return "other(" + err.Error() + ")"
 }
@@ -338,6 +346,12 @@ func (x *exec) main(t *thread) {
 		x.evCh <- park{kind: pkDone, result: res}
 	}()
 	ctx := context.Background()
+	if t.op.ctx {
+		var cancel context.CancelFunc
+		ctx, cancel = context.WithCancel(ctx)
+		t.cancel = cancel
+		defer cancel()
+	}
 	c := x.cache
 	sid := ids(t.op.id)
 	switch t.op.kind {
@@ -509,6 +523,12 @@ func (x *exec) enabledOf(t *thread, exhaustive bool) []action {
 		if chClosed(t.park.ch) {
 			return []action{{t.idx, ""}}
 		}
+		// blocked behind a load / another closer: the caller's context may expire now. The
+		// cancellation and the thread's reaction to it are one label (the awaited channel is open,
+		// so the select can only take ctx.Done: deterministic).
+		if t.op.ctx && !t.cancelled && t.cancel != nil {
+			return []action{{t.idx, "cancel"}}
+		}
 	case pkLoad:
 		if t.op.auto {
 			return []action{{t.idx, "ok"}}
@@ -583,6 +603,11 @@ func (x *exec) do(a action) park {
 			o.closed, o.closedAt = true, x.clock
 		}
 		x.logf("TryClose-%s i%d", a.verdict, o.n)
+	}
+	if a.verdict == "cancel" {
+		t.cancelled = true
+		t.cancel()
+		x.logf("t%d ctx-cancelled at %s", t.idx, t.park)
 	}
 	x.cur = t
 	t.resume <- a.verdict
